@@ -6,9 +6,21 @@
 //	races -mode run -ops ops.txt -out trace.txt -stats stats.json
 //	races -mode one -case "<Type> <M1> <M2> <iters>"       (one workload in this process)
 //
+// Cases (one line of ops.txt each, all on ONE instance per round, fresh instance per round):
+//
+//	new pair <Type> <M1> <M2> <iters>      2-4 workers, half call M1, half M2 (last round: all variants)
+//	new stress <Type> <iters>              4 workers cycling through all methods
+//	new seq <Type> <iters>                 1-2 writers running scripted/random SEQUENCES of the mutating
+//	                                       methods (delete-tail-then-append, fill-then-drain, …), readers
+//	                                       running every read-only method incl. boundary variants
+//	new directed <Type> <M1> <M2> <iters>  (directed search, emitted by checklib/props/C15.py when the
+//	                                       access-table obligation breaks) all variants of one method
+//	                                       against sequences "other mutators as preparation, then the other"
+//
 // `run` executes every case as a subprocess of this binary (`-mode one`) with
-// GORACE="halt_on_error=1 exitcode=66", so that a report is attributed to the pair, and writes one line
-// per case:   new pair <Type> <M1> <M2> <iters> => clean | race:<frame>|<frame> | panic:… | hang
+// GORACE="halt_on_error=0 exitcode=66" (all distinct reports of the case are collected and the one whose
+// frames lie in ekit code is preferred over a consequent report on the payload), and writes one line
+// per case:   <case> => clean | race:<frame>|<frame> | panic:… | hang
 //
 // Values travel through the containers as *item whose field is written plainly before the hand-off
 // and read plainly after it: a missing happens-before edge on the hand-off is a report, too.
@@ -87,6 +99,7 @@ type op func(g, i int)
 type inst struct {
 	ops   map[string]op
 	close func()
+	trim  func() // keeps the instance small during long writer sequences (called by the writer itself)
 }
 
 type typ struct {
@@ -99,6 +112,14 @@ type typ struct {
 
 func short(d time.Duration) (context.Context, context.CancelFunc) {
 	return context.WithTimeout(context.Background(), d)
+}
+
+func listTrim(l list.List[*item]) func() {
+	return func() {
+		for l.Len() > 96 {
+			_, _ = l.Delete(l.Len() - 1)
+		}
+	}
 }
 
 func listOps(l list.List[*item]) map[string]op {
@@ -118,6 +139,138 @@ func listOps(l list.List[*item]) map[string]op {
 				use(t)
 			}
 		},
+		// variants (key "Method#variant"): boundary indices and capacity changes
+		"Get#last":    func(g, i int) { v, _ := l.Get(l.Len() - 1); use(v) },
+		"Get#first":   func(g, i int) { v, _ := l.Get(0); use(v) },
+		"Append#many": func(g, i int) { _ = l.Append(mk(i), mk(i+1), mk(i+2)) },
+		"Append#none": func(g, i int) { _ = l.Append() },
+		"Add#end":     func(g, i int) { _ = l.Add(l.Len(), mk(i)) },
+		"Add#front":   func(g, i int) { _ = l.Add(0, mk(i)) },
+		"Set#last":    func(g, i int) { _ = l.Set(l.Len()-1, mk(i)) },
+		"Delete#last": func(g, i int) { v, _ := l.Delete(l.Len() - 1); use(v) },
+		"Delete#first": func(g, i int) {
+			if l.Len() > 4 {
+				v, _ := l.Delete(0)
+				use(v)
+			}
+		},
+		"Range#slow": func(g, i int) { // a reader that keeps its snapshot for a while
+			n := 0
+			_ = l.Range(func(_ int, t *item) error {
+				use(t)
+				if n++; n%3 == 0 && n < 30 {
+					runtime.Gosched()
+				}
+				return nil
+			})
+		},
+	}
+}
+
+// mutators: the methods of a type that change its state (the others are its readers); scripts: short
+// writer sequences that change capacity / shape in ways single calls do not (delete the tail then
+// append, fill to capacity then drain, …).  Used by the `seq` and `directed` cases.
+var mutators = map[string][]string{
+	"CopyOnWriteArrayList":            {"Append", "Add", "Set", "Delete"},
+	"ConcurrentList":                  {"Append", "Add", "Set", "Delete"},
+	"ConcurrentLinkedQueue":           {"Enqueue", "Dequeue"},
+	"ConcurrentArrayBlockingQueue":    {"Enqueue", "Dequeue"},
+	"ConcurrentLinkedBlockingQueue":   {"Enqueue", "Dequeue"},
+	"DelayQueue":                      {"Enqueue", "Dequeue"},
+	"ConcurrentPriorityQueue":         {"Enqueue", "Dequeue"},
+	"Cond":                            {"Signal", "Broadcast"},
+	"Map":                             {"Store", "LoadOrStore", "LoadOrStoreFunc", "LoadAndDelete", "Delete"},
+	"LimitPool":                       {"Get", "Put"},
+	"Pool":                            {"Get", "Put"},
+	"SegmentKeysLock":                 {"Lock", "TryLock"},
+	"Value":                           {"Store", "Swap", "CompareAndSwap"},
+	"OnDemandBlockTaskPool":           {"Submit", "Start", "Shutdown", "ShutdownNow"},
+	"ExponentialBackoffRetryStrategy": {"Next"},
+	"FixedIntervalRetryStrategy":      {"Next"},
+	"ReflectCopier":                   {},
+}
+
+var listScripts = [][]string{
+	{"Delete#last", "Append"}, {"Delete#last", "Append#many"}, {"Delete#last", "Add#end"},
+	{"Delete#last", "Delete#last", "Append#many"}, {"Set#last", "Delete#last"}, {"Append#many", "Delete#last", "Append"},
+	{"Add#front", "Delete#first"}, {"Delete#last", "Set#last"}, {"Append#none", "Append"},
+}
+
+var scripts = map[string][][]string{
+	"CopyOnWriteArrayList":          listScripts,
+	"ConcurrentList":                listScripts,
+	"ConcurrentLinkedQueue":         {{"Enqueue", "Enqueue", "Dequeue", "Dequeue", "Dequeue"}, {"Dequeue", "Enqueue"}},
+	"ConcurrentArrayBlockingQueue":  {{"Enqueue", "Enqueue", "Enqueue", "Enqueue", "Dequeue"}, {"Dequeue", "Dequeue", "Dequeue", "Enqueue"}},
+	"ConcurrentLinkedBlockingQueue": {{"Enqueue", "Enqueue", "Enqueue", "Enqueue", "Dequeue"}, {"Dequeue", "Dequeue", "Dequeue", "Enqueue"}},
+	"ConcurrentPriorityQueue":       {{"Dequeue", "Enqueue"}, {"Enqueue", "Enqueue", "Dequeue", "Dequeue", "Dequeue"}},
+	"Map":                           {{"Delete", "Store"}, {"LoadAndDelete", "LoadOrStore"}, {"Store", "Store", "Delete"}},
+	"Value":                         {{"Store", "Swap"}, {"CompareAndSwap", "Store"}},
+}
+
+// variants returns the ops of a method: the plain one and every "Method#variant", in a fixed order
+func variants(in *inst, method string) []op {
+	var keys []string
+	for k := range in.ops {
+		if k == method || strings.HasPrefix(k, method+"#") {
+			keys = append(keys, k)
+		}
+	}
+	sort.Strings(keys)
+	out := make([]op, len(keys))
+	for i, k := range keys {
+		out[i] = in.ops[k]
+	}
+	return out
+}
+
+func isMutator(t *typ, method string) bool {
+	for _, m := range mutators[t.name] {
+		if m == method {
+			return true
+		}
+	}
+	return false
+}
+
+// cycle runs the given ops round-robin
+func cycle(fs []op, offs int) op {
+	return func(g, i int) { fs[(i+offs)%len(fs)](g, i) }
+}
+
+// writerSeq: one step per call, following scripts (half of the time) and random mutator variants;
+// `must` (directed search) are the ops every sequence ends with, `prep` what may precede them.
+func writerSeq(in *inst, t *typ, rng *vlib.Rng, prep []op, must []op) op {
+	var queue []op
+	sc := scripts[t.name]
+	return func(g, i int) {
+		if in.trim != nil && i%64 == 63 {
+			in.trim()
+		}
+		if len(queue) == 0 {
+			switch {
+			case must != nil:
+				for k := rng.Intn(3); k > 0 && len(prep) > 0; k-- {
+					queue = append(queue, prep[rng.Intn(len(prep))])
+				}
+				queue = append(queue, must[rng.Intn(len(must))])
+			case len(sc) > 0 && rng.Bool():
+				for _, k := range sc[rng.Intn(len(sc))] {
+					if f := in.ops[k]; f != nil {
+						queue = append(queue, f)
+					}
+				}
+			default:
+				for k := 1 + rng.Intn(3); k > 0 && len(prep) > 0; k-- {
+					queue = append(queue, prep[rng.Intn(len(prep))])
+				}
+			}
+			if len(queue) == 0 {
+				return
+			}
+		}
+		f := queue[0]
+		queue = queue[1:]
+		f(g, i)
 	}
 }
 
@@ -134,7 +287,8 @@ func prefill(n int) []*item {
 func types() []typ {
 	return []typ{
 		{name: "CopyOnWriteArrayList", methods: listMethods, scale: 1, mk: func(_, _ string) *inst {
-			return &inst{ops: listOps(list.NewCopyOnWriteArrayListOf[*item](prefill(6)))}
+			l := list.NewCopyOnWriteArrayListOf[*item](prefill(6))
+			return &inst{ops: listOps(l), trim: listTrim(l)}
 		}},
 		{name: "ConcurrentList", methods: listMethods, scale: 1, mk: func(m1, m2 string) *inst {
 			// alternate the wrapped implementation
@@ -142,7 +296,8 @@ func types() []typ {
 			if (len(m1)+len(m2))%2 == 1 {
 				inner = list.NewLinkedListOf[*item](prefill(6))
 			}
-			return &inst{ops: listOps(&list.ConcurrentList[*item]{List: inner})}
+			l := &list.ConcurrentList[*item]{List: inner}
+			return &inst{ops: listOps(l), trim: listTrim(l)}
 		}},
 		{name: "ConcurrentLinkedQueue", methods: []string{"Enqueue", "Dequeue"}, scale: 1, mk: func(_, _ string) *inst {
 			q := queue.NewConcurrentLinkedQueue[*item]()
@@ -477,9 +632,12 @@ func one(c string) int {
 		iters = 50
 	}
 	iters = iters/t.scale + 1
+	if t.scale > 1 && iters > 1500 {
+		iters = 1500 // calls that wait for a deadline: bound the wall time of one case
+	}
 	seed := vlib.Seed()
 	go func() { // watchdog
-		time.Sleep(40 * time.Second)
+		time.Sleep(75 * time.Second)
 		fmt.Fprintln(os.Stderr, "VERIF-HANG")
 		os.Exit(3)
 	}()
@@ -488,15 +646,18 @@ func one(c string) int {
 	case "pair":
 		if len(ws) != 5 {
 			fmt.Fprintln(os.Stderr, "bad case:", c)
-			return 2
+			return 4
 		}
 		m1, m2 := ws[2], ws[3]
 		for r := 0; r < rounds; r++ {
 			in := t.mk(m1, m2)
-			f1, f2 := in.ops[m1], in.ops[m2]
-			if f1 == nil || f2 == nil {
+			if in.ops[m1] == nil || in.ops[m2] == nil {
 				fmt.Fprintln(os.Stderr, "unknown method in:", c)
 				return 4
+			}
+			f1, f2 := in.ops[m1], in.ops[m2]
+			if r == rounds-1 { // the last round goes through the boundary variants of both methods
+				f1, f2 = cycle(variants(in, m1), 0), cycle(variants(in, m2), 0)
 			}
 			workers := 2 + int((seed+uint64(r))%3) // 2..4
 			fns := make([]op, workers)
@@ -520,6 +681,74 @@ func one(c string) int {
 			for g := 0; g < 4; g++ {
 				offs := rng.Intn(len(t.methods))
 				fns = append(fns, func(g, i int) { in.ops[t.methods[(i+offs)%len(t.methods)]](g, i) })
+			}
+			runWorkers(fns, iters)
+			if in.close != nil {
+				in.close()
+			}
+		}
+	case "seq":
+		// writer sequences against readers: worker 0 (in the last round also worker 1) runs scripted and
+		// random sequences of the mutating methods, the others run every read-only method (all methods
+		// if the type has none)
+		rng := vlib.NewRng(seed ^ 0x5e9)
+		for r := 0; r < rounds; r++ {
+			in := t.mk("", "")
+			var mut, ro []op
+			for _, m := range t.methods {
+				if isMutator(t, m) {
+					mut = append(mut, variants(in, m)...)
+				} else {
+					ro = append(ro, variants(in, m)...)
+				}
+			}
+			if len(mut) == 0 {
+				mut = ro
+			}
+			if len(ro) == 0 {
+				ro = mut
+			}
+			fns := []op{writerSeq(in, t, rng.Fork(), mut, nil)}
+			if r == rounds-1 {
+				fns = append(fns, writerSeq(in, t, rng.Fork(), mut, nil))
+			}
+			for len(fns) < 4 {
+				fns = append(fns, cycle(ro, rng.Intn(len(ro))))
+			}
+			runWorkers(fns, iters)
+			if in.close != nil {
+				in.close()
+			}
+		}
+	case "directed":
+		// directed search for a conflict the access table names between m1 and m2: one side runs all
+		// variants of its method, the other runs sequences "0-2 other mutators as preparation, then its
+		// method"; the roles alternate per round
+		if len(ws) != 5 {
+			fmt.Fprintln(os.Stderr, "bad case:", c)
+			return 4
+		}
+		rng := vlib.NewRng(seed ^ 0xd17)
+		for r := 0; r < 4; r++ {
+			in := t.mk(ws[2], ws[3])
+			ma, mb := ws[2], ws[3]
+			if r%2 == 1 {
+				ma, mb = mb, ma
+			}
+			if in.ops[ma] == nil || in.ops[mb] == nil {
+				fmt.Fprintln(os.Stderr, "unknown method in:", c)
+				return 4
+			}
+			var prep []op
+			for _, m := range t.methods {
+				if isMutator(t, m) {
+					prep = append(prep, variants(in, m)...)
+				}
+			}
+			va, vb := variants(in, ma), variants(in, mb)
+			fns := []op{writerSeq(in, t, rng.Fork(), prep, vb), cycle(va, 0), cycle(va, 1), cycle(va, 2)}
+			if r >= 2 {
+				fns[3] = writerSeq(in, t, rng.Fork(), prep, vb)
 			}
 			runWorkers(fns, iters)
 			if in.close != nil {
@@ -555,6 +784,9 @@ func gen(tier, out string) {
 			}
 		}
 		o.Line("new stress %s %d", t.name, iters*2)
+		if os.Getenv("VERIF_RACES_NOSEQ") == "" { // (knob for testing the directed search on its own)
+			o.Line("new seq %s %d", t.name, iters*4)
+		}
 	}
 }
 
@@ -575,7 +807,25 @@ func shortFn(s string) string {
 }
 
 // raceFrames returns the innermost ekit (or harness) frame of each of the two conflicting accesses
-func raceFrames(report string) string {
+func raceFrames(output string) string {
+	// several reports: prefer one whose two frames are library code over one in the harness' payload
+	best, bestScore := "?", -1
+	for _, rep := range strings.Split(output, "WARNING: DATA RACE")[1:] {
+		fr := reportFrames(rep)
+		score := 0
+		for _, p := range strings.Split(fr, "|") {
+			if !strings.Contains(p, ":main.") && !strings.HasSuffix(p, ":?") {
+				score++
+			}
+		}
+		if score > bestScore {
+			best, bestScore = fr, score
+		}
+	}
+	return best
+}
+
+func reportFrames(report string) string {
 	lines := strings.Split(report, "\n")
 	var out []string
 	for i := 0; i < len(lines) && len(out) < 2; i++ {
@@ -623,11 +873,11 @@ type result struct {
 
 func runCase(self, c string) result {
 	t0 := time.Now()
-	ctx, cancel := context.WithTimeout(context.Background(), 90*time.Second)
+	ctx, cancel := context.WithTimeout(context.Background(), 120*time.Second)
 	defer cancel()
 	cmd := exec.CommandContext(ctx, self, "-mode", "one", "-case", c)
 	env := os.Environ()
-	env = append(env, "GORACE=halt_on_error=1 exitcode=66 atexit_sleep_ms=0")
+	env = append(env, "GORACE=halt_on_error=0 exitcode=66 atexit_sleep_ms=0")
 	cmd.Env = env
 	var buf bytes.Buffer
 	cmd.Stdout = &buf
